@@ -273,12 +273,12 @@ Proof.
   apply int_result_wrap.
 Qed.
 
-Lemma sub_rel a c : orel (sem_int_or_float Z.sub fl_sub a c) (arith OSub a c).
+Lemma sub_rel a c : orel (sem_int_or_float Z.sub fl_sub_r a c) (arith OSub a c).
 Proof.
   unfold sem_int_or_float, arith. destruct a, c; try apply float_op_rel. apply int_result_wrap.
 Qed.
 
-Lemma mul_rel a c : orel (sem_int_or_float Z.mul fl_mul a c) (arith OMul a c).
+Lemma mul_rel a c : orel (sem_int_or_float Z.mul fl_mul_r a c) (arith OMul a c).
 Proof.
   unfold sem_int_or_float, arith. destruct a, c; try apply float_op_rel. apply int_result_wrap.
 Qed.
